@@ -1,11 +1,80 @@
 """C11 - common functions obey their documented per-value definitions on all floats; constants correctly rounded."""
+import json, os, re
 import vlib
 
 LEVEL = "model_checking"
 TRACE_MODULE = "Trace_C11"
 
 
+OPS5 = ["trunc", "floor", "ceil", "round", "roundEven"]
+
+
+def sweep(ctx):
+    """E5: all 2^32 binary32 patterns through the unary functions against the class table derived and verified by TLC."""
+    raw = ctx.scratch.path("c11table.ndjson")
+    ctx.mc("MC_C11T", "MC_C11T_mini.cfg", what="class-table form of the unary functions = per-value definitions, every pattern of the mini format (4,3)")
+    if not ctx.quick:
+        ctx.mc("MC_C11T", "MC_C11T_half.cfg", what="the same on every binary16 pattern")
+    ctx.mc("MC_C11T", "MC_C11T_single.cfg", env={"OUT": raw}, what="the same on the class-boundary patterns of every (sign, exponent) class of binary32; emits the table")
+    tab = ctx.scratch.path("c11table.txt")
+    nrow = 0
+    with open(tab, "w") as o:
+        for l in open(raw):
+            r = json.loads(l)
+            nrow += 1
+            if r["t"] == "K":
+                o.write("K %d %d\n" % (r["e"], r["k"]))
+            else:
+                o.write("B %d %d %d %d %d %d\n" % (OPS5.index(r["op"]), r["s"], r["fz"], r["cmp"], r["odd"], r["b"]))
+    if nrow != 376:
+        raise vlib.Infra("class table has %d rows" % nrow)
+    ctx.extra["class_table_rows"] = nrow
+    simd = ["-DSWEEP_SIMD", "-DGLM_FORCE_INTRINSICS", "-DGLM_FORCE_ALIGNED_GENTYPES"]
+    variants = [("pure", []), ("sse2", ["-msse2"] + simd), ("sse4.1", ["-msse4.1"] + simd)]
+    if not ctx.quick:
+        variants += [("avx2", ["-mavx2", "-mfma"] + simd), ("pure-O0", [])]
+    total_in = total_rej = 0
+    first = True
+    for name, flags in variants:
+        b = ctx.build("c11sweep-" + name.replace(".", ""), "c11sweep.cpp", flags=flags, opt="-O0" if name.endswith("O0") else "-O2", label="c11sweep " + name)
+        if not b:
+            continue
+        if first:
+            first = False
+            sc = ctx.scratch.path("c11selfcheck.ndjson")
+            ok, out = ctx.run_harness(b, [sc, tab, "selfcheck"], sc)
+            if ok:
+                v = ctx.validate(TRACE_MODULE, sc, label="table-selfcheck", count_distinct=False)
+                if v.mismatches:
+                    raise vlib.Infra("the sweep's table interpreter disagrees with the trace specification (sweeper bug, not a verdict about GLM)")
+        sw = ctx.scratch.path("c11sweep-%s.ndjson" % name)
+        ok, out = ctx.run_harness(b, [sw, tab, "sweep"] + (["16"] if name.endswith("O0") else []), sw, timeout=3000)
+        if not ok:
+            continue
+        m = re.search(r"SWEEP inputs=(\d+) calls=(\d+) rejected=(\d+)", out)
+        if not m:
+            raise vlib.Infra("c11 sweep failed: " + out[-2000:])
+        total_in += int(m.group(1))
+        total_rej += int(m.group(3))
+        ctx.extra.setdefault("sweeps", []).append({"build": name, "inputs": int(m.group(1)), "glm_calls": int(m.group(2)), "rejected_by_table": int(m.group(3))})
+        if int(m.group(3)) > 0:
+            nv = len(ctx.violations)
+            v = ctx.validate(TRACE_MODULE, sw, label="sweep-rejects-" + name, count_distinct=False, min_lines=200)
+            if not v.mismatches and len(ctx.violations) == nv:
+                raise vlib.Infra("sweeper rejected %s inputs that the trace specification accepts: sweeper/table bug" % m.group(3))
+    ctx.sweep_inputs += total_in
+    ctx.extra["sweep_inputs"] = total_in
+    ctx.extra["sweep_rejected_by_table"] = total_rej
+    ctx.extra["distinct_extra"] = total_in
+    ctx.rule("E5: all 2^32 binary32 patterns through trunc/floor/ceil/round/roundEven/fract/abs/sign/isnan/isinf/modf/frexp/iround/uround (scalar overloads, "
+             "pure build) and through the aligned vec4 overloads of the first ten in intrinsic builds (SSE2, SSE4.1; AVX2+FMA thorough), compared with the "
+             "376-row class table that TLC derives from GlmCommonTable.tla and proves equal to the per-value definitions on every mini / binary16 pattern and "
+             "every class boundary of binary32; the table interpreter itself is judged by TLC on the class-boundary lattice; table rejections are re-judged by TLC",
+             exhaustive=True)
+
+
 def run(ctx):
+    sweep(ctx)
     ctx.mc("MC_C11", "MC_C11.cfg", what="mini format (4,3) and binary16 samples: the integer roundings satisfy the characterisations of the property text "
            "(floor(x) <= x < floor(x)+1, nearest with ties away / to even, fract in [0,1), sign in {-1,0,1}, frexp/ldexp inverse)")
     b = ctx.build("c11", "c11.cpp")
@@ -24,5 +93,6 @@ def run(ctx):
     # associated / extended min-max, reciprocal trigonometry, compatibility, gauss, levels, integer log2 - specified in GlmX11.tla
     from props import x11
     x11.run(ctx)
-    ctx.assumptions += ["the 2^32 sweep of the unary functions is not built yet: unary functions are judged on the structured lattice only",
+    ctx.assumptions += ["the 40-line C++ table interpreter of the sweep (RowApply) is validated by TLC-judged events on every class boundary; the double "
+                        "instantiations of the unary functions are judged on the structured lattice only (2^64 patterns cannot be swept)",
                         "composite formulas on doubles are judged for magnitudes 2^-130..2^130", "sign of a zero result is not constrained"]
